@@ -52,7 +52,7 @@ def build(tier, seed, prop=PROP, kind=KIND, gen=None):
         # canary
         body.append("#[kani::proof]\n#[kani::unwind(1)]\nfn %s_canary() {\n    let x: u8 = kani::any();\n    assert!(x != 7, \"CANARY:%s\");\n}\n" % (pfx, pfx))
         specs["verif_kani::%s_definers::%s_canary" % (pfx, pfx)] = dict(canary=True)
-        batches.append(vlib.Batch(crate, list(feats), {pfx + "_definers": "\n".join(body)}, specs, jobs=10, harness_timeout=900))
+        batches.append(vlib.Batch(crate, list(feats), {pfx + "_definers": "\n".join(body)}, specs, jobs=8, harness_timeout=(3600 if tier == "thorough" else 600)))
     return batches, meta
 
 
